@@ -3,10 +3,7 @@ From TsRs Require Import Base.Str.
 
 Definition doc_line (l : str) : str := lit " *" ++ l.
 
-Definition escape_doc (l : str) : str := replace (lit "*/") (lit "*\/") l.
-
 Definition parse_docs (ls : list str) : str :=
-  let ls := map escape_doc ls in
   match ls with
   | [] => []
   | [one] =>
